@@ -56,9 +56,12 @@ KIND_LITERALS = ['"s"', '1', '-1', '1.5', 'true', 'null', 'tag', '[1]', '{"a": 1
 
 class _Timeout(BaseException):       # not an Exception: no `except Exception` of the code under test may swallow it
     def __init__(self, where, clock):
-        BaseException.__init__(self, where)
+        BaseException.__init__(self, where, clock)     # args = the constructor's arguments: picklable across a process pool
         self.where = where
         self.clock = clock
+
+    def __reduce__(self):
+        return (_Timeout, (self.where, self.clock))
 
 
 def _stuck_at(frame):
